@@ -31,6 +31,9 @@ type C17Entry struct {
 }
 
 type C17Run struct {
+	// Tail: a dtail (follow) client, which reconnects 2 s after a connection ended
+	// until the user interrupts it (CancelAtMs is then always set)
+	Tail     bool     `json:"tail,omitempty"`
 	TrustAll bool     `json:"trust_all"`
 	Answers  []string `json:"answers"` // lines typed by the user, in order
 	// CancelAtMs >= 0: the user interrupts the client (Ctrl-C) this long after it
@@ -44,6 +47,10 @@ type C17Scenario struct {
 	Known   []C17Entry          `json:"known"`
 	FinalNL bool                `json:"final_nl"`
 	Runs    []C17Run            `json:"runs"`
+	// Rekey: servers that present ANOTHER host key from their second connection
+	// on (re-installed machine, or somebody in the middle of the re-dial); only
+	// with a single run, and their original key is in known_hosts
+	Rekey []int `json:"rekey,omitempty"`
 	Net     verifsimnet.Profile `json:"net"`
 }
 
@@ -96,6 +103,36 @@ func c17Gen(r *Rand, tier string, i int) Scenario {
 			run.Answers = append(run.Answers, PickOf(r, "y", "yes", "n", "no", "a", "all", "d", "details", "", "maybe", "Y", "yes please"))
 		}
 		sc.Runs = append(sc.Runs, run)
+	}
+	if r.Bool(0.12) {
+		// reconnects of a follow client to servers that change their host key
+		sc.Runs = []C17Run{{Tail: true, TrustAll: r.Bool(0.15), CancelAtMs: PickOf(r, 7000, 9000, 12000)}}
+		na := r.Range(0, 3)
+		for a := 0; a < na; a++ {
+			sc.Runs[0].Answers = append(sc.Runs[0].Answers, PickOf(r, "y", "n", "n", "a", "d", "maybe"))
+		}
+		for i := 0; i < sc.Servers; i++ {
+			if r.Bool(0.6) {
+				sc.Rekey = append(sc.Rekey, i)
+				// its original key is known (a correct entry by name and by address)
+				sc.Known = append(sc.Known, C17Entry{Kind: "both", Server: i})
+			}
+		}
+		// drop generated entries that carry a wrong key for a re-keying server:
+		// the first connection must be the trusted one
+		var kept []C17Entry
+		for _, e := range sc.Known {
+			bad := false
+			for _, i := range sc.Rekey {
+				if e.Server == i && e.Wrong && e.Kind != "unrelated" && e.Kind != "comment" && e.Kind != "blank" && e.Kind != "marker" && e.Kind != "longmulti" {
+					bad = true
+				}
+			}
+			if !bad {
+				kept = append(kept, e)
+			}
+		}
+		sc.Known = kept
 	}
 	sc.Net = verifsimnet.Profile{LatencyMs: PickOf(r, 0, 1, 5)}
 	if sc.Servers > 1 && r.Bool(0.3) {
@@ -161,7 +198,10 @@ func (sc *C17Scenario) knownHosts() []byte {
 }
 
 type c17Server struct {
-	established int // sessions that reached the shell
+	accepted       int // connections accepted so far
+	rekey          bool
+	establishedNew int // sessions that reached the shell under the server's second key
+	established    int // sessions that reached the shell
 	commands    int // sessions in which command bytes arrived
 }
 
@@ -170,6 +210,8 @@ func (w *World) runKeyServer(i int, st *c17Server) {
 	must(err)
 	cfg := &gossh.ServerConfig{PublicKeyCallback: func(c gossh.ConnMetadata, k gossh.PublicKey) (*gossh.Permissions, error) { return nil, nil }}
 	cfg.AddHostKey(c17Signer(i))
+	cfg2 := &gossh.ServerConfig{PublicKeyCallback: cfg.PublicKeyCallback}
+	cfg2.AddHostKey(Key(100 + i).Signer) // the key after the re-key
 	node := verifsim.CurrentNode()
 	for {
 		verifsim.Yield("harness/keyaccept")
@@ -177,8 +219,13 @@ func (w *World) runKeyServer(i int, st *c17Server) {
 		if err != nil {
 			return
 		}
+		st.accepted++
+		useCfg, newKey := cfg, false
+		if st.rekey && st.accepted > 1 {
+			useCfg, newKey = cfg2, true
+		}
 		w.Sim.GoOn(node, "harness/keyconn", func() {
-			sc, chans, reqs, err := gossh.NewServerConn(conn, cfg)
+			sc, chans, reqs, err := gossh.NewServerConn(conn, useCfg)
 			if err != nil {
 				return
 			}
@@ -196,6 +243,9 @@ func (w *World) runKeyServer(i int, st *c17Server) {
 						}
 						req.Reply(true, nil)
 						st.established++
+						if newKey {
+							st.establishedNew++
+						}
 						w.Sim.GoOn(node, "harness/keyscript", func() {
 							buf := make([]byte, 4096)
 							n, _ := ch.Read(buf)
@@ -236,6 +286,11 @@ func c17Run(t *testing.T, s Scenario, src verifsim.DecisionSource, keep bool) *R
 		for i := 0; i < sc.Servers; i++ {
 			i := i
 			states[i] = &c17Server{}
+			for _, k := range sc.Rekey {
+				if k == i {
+					states[i].rekey = true
+				}
+			}
 			h := c17Host(i)
 			hosts = append(hosts, h)
 			w.Net.AddHost(h, c17IP(i))
@@ -299,6 +354,9 @@ func c17Run(t *testing.T, s Scenario, src verifsim.DecisionSource, keep bool) *R
 			a.SSHPrivateKeyFilePath = keyPath
 			a.TrustAllHosts = run.TrustAll
 			proc := &ClientProc{Kind: "cat", Args: a}
+			if run.Tail {
+				proc.Kind = "tail"
+			}
 			// every run is its own process: when main returns, all its goroutines die
 			pnode := w.Sim.NewNode(fmt.Sprintf("proc%d", ri), "client", "clienthost")
 			pdone := make(chan struct{})
@@ -332,18 +390,15 @@ func c17Run(t *testing.T, s Scenario, src verifsim.DecisionSource, keep bool) *R
 			allSaid := false
 			// batches in order of first appearance (a prompt is re-printed after a
 			// non-terminal answer such as "details" or garbage)
+			// Every printed prompt consumes exactly one line of input: a terminal
+			// answer (yes/all/no) decides the batch, anything else ("details",
+			// garbage, empty) makes the prompt ask again. A follow client that
+			// reconnects may prompt for the same host several times.
 			var batches [][]string
-			last := ""
 			for _, m := range c17PromptRe.FindAllSubmatch(out, -1) {
-				if string(m[2]) != last {
-					batches = append(batches, strings.Split(string(m[2]), ","))
-					last = string(m[2])
-				}
-			}
-			prompts += len(batches)
-			for _, b := range batches {
+				hostsOfPrompt := strings.Split(string(m[2]), ",")
 				verdict := ""
-				for ai < len(answers) && verdict == "" {
+				if ai < len(answers) {
 					switch strings.TrimSpace(answers[ai]) {
 					case "y", "yes":
 						verdict = "yes"
@@ -353,28 +408,39 @@ func c17Run(t *testing.T, s Scenario, src verifsim.DecisionSource, keep bool) *R
 					case "n", "no":
 						verdict = "no"
 					}
-					ai++
 				}
-				for _, h := range b {
+				ai++
+				if verdict == "" {
+					continue
+				}
+				batches = append(batches, hostsOfPrompt)
+				for _, h := range hostsOfPrompt {
 					if verdict == "yes" {
 						approved[h] = true
+						delete(refused, h)
 					} else {
 						refused[h] = true
 					}
 				}
 			}
+			prompts += len(batches)
 			after, _ := os.ReadFile(khPath)
 			var newlyTrusted []int
 			for i := 0; i < sc.Servers; i++ {
 				got := states[i].established - base[i].established
 				hostAddr := fmt.Sprintf("%s:%d", c17Host(i), config.DefaultSSHPort)
 				// after the answer "all" later batches are trusted without a prompt
-				trusted := knownOK[i] || run.TrustAll || approved[hostAddr] || (allSaid && !refused[hostAddr])
+				trustedByAll := allSaid && (!refused[hostAddr] || run.Tail) // a follow client retries refused hosts after "all"
+				trusted := knownOK[i] || run.TrustAll || approved[hostAddr] || trustedByAll
+				if gotNew := states[i].establishedNew - base[i].establishedNew; gotNew > 0 && !(run.TrustAll || approved[hostAddr] || allSaid) {
+					fail("untrusted-host-contacted", fmt.Sprintf("run %d: %s changed its host key between two connections of this run; a session was established under the new key although the user did not approve it (answers %q)",
+						ri, hostAddr, run.Answers))
+				}
 				if got > 0 && !trusted {
 					fail("untrusted-host-contacted", fmt.Sprintf("run %d: a session was established with %s although its key is not vouched for by known_hosts, trust-all is off and the user did not approve it (answers %q)",
 						ri, hostAddr, run.Answers))
 				}
-				if !knownOK[i] && (run.TrustAll || approved[hostAddr] || (allSaid && !refused[hostAddr])) {
+				if !knownOK[i] && (run.TrustAll || approved[hostAddr] || trustedByAll) {
 					newlyTrusted = append(newlyTrusted, i)
 				}
 			}
@@ -389,6 +455,14 @@ func c17Run(t *testing.T, s Scenario, src verifsim.DecisionSource, keep bool) *R
 				os.Remove(khPath + ".tmp")
 			}
 			replaced := map[string]bool{}
+			for _, i := range sc.Rekey {
+				// an approved new key replaces the host's old entries
+				hostAddr := fmt.Sprintf("%s:%d", c17Host(i), config.DefaultSSHPort)
+				if run.TrustAll || approved[hostAddr] || allSaid {
+					replaced[knownhosts.Normalize(hostAddr)] = true
+					replaced[knownhosts.Normalize(fmt.Sprintf("%s:%d", c17IP(i), config.DefaultSSHPort))] = true
+				}
+			}
 			for _, i := range newlyTrusted {
 				replaced[knownhosts.Normalize(fmt.Sprintf("%s:%d", c17Host(i), config.DefaultSSHPort))] = true
 				replaced[knownhosts.Normalize(fmt.Sprintf("%s:%d", c17IP(i), config.DefaultSSHPort))] = true
@@ -397,7 +471,13 @@ func c17Run(t *testing.T, s Scenario, src verifsim.DecisionSource, keep bool) *R
 			for _, l := range strings.Split(string(after), "\n") {
 				afterLines[l]++
 			}
-			if len(newlyTrusted) == 0 && len(batches) == 0 && !bytes.Equal(before, after) {
+			rekeyed := false
+			for _, i := range sc.Rekey {
+				if states[i].accepted-base[i].accepted > 1 {
+					rekeyed = true
+				}
+			}
+			if len(newlyTrusted) == 0 && len(batches) == 0 && !bytes.Equal(before, after) && !(rekeyed && run.TrustAll) {
 				fail("known-hosts-changed", fmt.Sprintf("run %d: no host was newly trusted but known_hosts changed (%d -> %d bytes)", ri, len(before), len(after)))
 			}
 			for _, l := range strings.Split(string(before), "\n") {
@@ -461,7 +541,7 @@ func c17Shape(s Scenario) string {
 	for _, r := range sc.Runs {
 		rs = append(rs, fmt.Sprintf("%v:%s:c%d", r.TrustAll, strings.Join(r.Answers, "/"), r.CancelAtMs))
 	}
-	return fmt.Sprintf("s%d/%s/nl%v/%s/slow%v", sc.Servers, strings.Join(ks, ","), sc.FinalNL, strings.Join(rs, ";"), sc.Net.ConnLatency)
+	return fmt.Sprintf("s%d/rekey%v/%s/nl%v/%s/slow%v", sc.Servers, sc.Rekey, strings.Join(ks, ","), sc.FinalNL, strings.Join(rs, ";"), sc.Net.ConnLatency)
 }
 
 func c17Sample(s Scenario) any {
